@@ -82,14 +82,20 @@ Lemma copy_all_ok inv : inv = [] -> forall src out, exists out', copy_props inv 
 Proof. intros ->. induction src as [|[k v] r IH]; intro out; simpl; [eauto|apply IH]. Qed.
 
 (* ---- SM -> SSC ---- *)
-Lemma convert_charts_all inv : inv = [] -> forall tmpl charts, exists cs,
-  convert_charts inv [] None tmpl charts = COk cs /\ length cs = length charts /\
-  forall i c, nth_error charts i = Some c -> exists c', nth_error cs i = Some c' /\ copy_props inv [] None c tmpl = COk c'.
+Lemma convert_charts_all post inv : inv = [] -> forall tmpl charts, exists cs,
+  convert_charts post inv [] None tmpl charts = COk cs /\ length cs = length charts /\
+  forall i c, nth_error charts i = Some c -> exists c', nth_error cs i = Some (post c') /\ copy_props inv [] None c tmpl = COk c'.
 Proof.
   intros Hinv tmpl. induction charts as [|c r IH]; [exists []; repeat split; intros i c H; destruct i; discriminate|].
   destruct IH as (cs & E & L & N). destruct (copy_all_ok inv Hinv c tmpl) as [c' Ec].
-  exists (c' :: cs). cbn [convert_charts]. rewrite Ec, E. repeat split; [simpl; congruence|].
+  exists (post c' :: cs). cbn [convert_charts]. rewrite Ec, E. repeat split; [simpl; congruence|].
   intros i x H. destruct i as [|i]; simpl in *; [inversion H; subst; eauto|apply N; exact H].
+Qed.
+
+Lemma copy_nodup_all inv : inv = [] -> forall src out out', NoDupKeys out -> copy_props inv [] None src out = COk out' -> NoDupKeys out'.
+Proof.
+  intros ->. induction src as [|[k v] r IH]; intros out out' Hnd H; [simpl in H; inversion H; subst; exact Hnd|].
+  cbn [copy_props decide] in H. apply (IH _ _ (set_NoDupKeys k v out Hnd) H).
 Qed.
 
 Lemma copy_get_all inv : inv = [] -> forall src out out', NoDupKeys src -> copy_props inv [] None src out = COk out' ->
@@ -105,6 +111,7 @@ Theorem sm_to_ssc_spec sf charts tmpl_sf tmpl_chart :
   sm_negative_timing sf = COk false ->
   let base := base_of Tables.blank_ssc_simfile tmpl_sf in
   let ct := chart_tmpl_of Tables.blank_ssc_chart tmpl_chart in
+  NoDupKeys ct ->
   exists out cs,
     sm_to_ssc sf charts tmpl_sf tmpl_chart = COk (out, snd base ++ cs) /\
     (* every property of the source has the same value; the rest comes from the template *)
@@ -116,16 +123,46 @@ Theorem sm_to_ssc_spec sf charts tmpl_sf tmpl_chart :
        (forall k v, get k c = Some v -> get k c' = Some v) /\
        (forall k, get k c = None -> get k c' = get k ct)).
 Proof.
-  intros Hnd Hc Hneg base ct. unfold sm_to_ssc, convert_core. rewrite Hneg. fold base. fold ct.
+  intros Hnd Hc Hneg base ct Hct. unfold sm_to_ssc, convert_core. rewrite Hneg. fold base. fold ct.
   destruct ssc_tables_empty as [E1 E2].
   destruct (copy_all_ok _ E1 sf (fst base)) as [out Eo]. rewrite Eo.
-  destruct (convert_charts_all _ E2 ct charts) as (cs & Ecs & L & N). rewrite Ecs. cbn [lift_charts].
+  destruct (convert_charts_all notes_last _ E2 ct charts) as (cs & Ecs & L & N). rewrite Ecs. cbn [lift_charts].
   exists out, cs. split; [reflexivity|].
   destruct (copy_get_all _ E1 sf (fst base) out Hnd Eo) as [A B].
   split; [exact A|split; [exact B|split; [exact L|]]].
-  intros i c Hi. destruct (N i c Hi) as (c' & Hn & Ec). exists c'. split; [exact Hn|].
+  intros i c Hi. destruct (N i c Hi) as (c' & Hn & Ec). exists (notes_last c'). split; [exact Hn|].
   assert (Hcn : NoDupKeys c) by (apply Hc; eapply nth_error_In; eauto).
-  apply (copy_get_all _ E2 c ct c' Hcn Ec).
+  assert (Hc'n : NoDupKeys c') by (apply (copy_nodup_all _ E2 c ct c' Hct Ec)).
+  destruct (copy_get_all _ E2 c ct c' Hcn Ec) as [A' B'].
+  (* moving the note data to the end changes no value *)
+  unfold notes_last. split; intros k; rewrite (get_move_to_end kNOTES k c' Hc'n); [apply A'|apply B'].
+Qed.
+
+Lemma convert_charts_post post inv beh allowed tmpl : forall charts cs,
+  convert_charts post inv beh allowed tmpl charts = COk cs ->
+  length cs = length charts /\ forall c, List.In c cs -> exists c0, c = post c0.
+Proof.
+  induction charts as [|x r IH]; intros cs H; cbn [convert_charts] in H; [inversion H; subst; split; [reflexivity|intros c []]|].
+  destruct (copy_props inv beh allowed x tmpl) as [x'| | | |]; try discriminate.
+  destruct (convert_charts post inv beh allowed tmpl r) as [r'| | | |]; try discriminate.
+  inversion H; subst. destruct (IH r' eq_refl) as [L P]. split; [simpl; congruence|].
+  intros c [<-|Hin]; [eauto|apply (P c Hin)].
+Qed.
+
+(* every converted chart of the result that holds note data holds it last, whatever the templates are
+   (the charts of the simfile template come first and are the template's own) *)
+Theorem sm_to_ssc_notes_last sf charts tmpl_sf tmpl_chart out cs :
+  sm_to_ssc sf charts tmpl_sf tmpl_chart = COk (out, cs) ->
+  exists cs', cs = snd (base_of Tables.blank_ssc_simfile tmpl_sf) ++ cs' /\ length cs' = length charts /\
+    forall c', List.In c' cs' -> has kNOTES c' = true -> exists pre v, c' = pre ++ [(kNOTES, v)].
+Proof.
+  intro H. unfold sm_to_ssc, convert_core in H. destruct (sm_negative_timing sf) as [[|]| | | |]; try discriminate.
+  destruct (copy_props Tables.invalid_ssc_simfile [] None sf _) as [o| | | |]; try discriminate.
+  destruct (convert_charts notes_last _ _ _ _ charts) as [cs'| | | |] eqn:Ec; try discriminate.
+  cbn [lift_charts] in H. inversion H; subst. exists cs'. split; [reflexivity|].
+  destruct (convert_charts_post _ _ _ _ _ _ _ Ec) as [L P]. split; [exact L|].
+  intros c' Hin Hh. destruct (P c' Hin) as [c0 ->].
+  unfold notes_last in *. destruct (move_to_end_has_last kNOTES c0 Hh) as (pre & v & E & _). eauto.
 Qed.
 
 Theorem sm_to_ssc_negative_refused sf charts tmpl_sf tmpl_chart :
@@ -137,11 +174,11 @@ Theorem ssc_to_sm_warps_refused sf charts tmpl_sf tmpl_chart beh :
   ssc_has_warps sf = true -> ssc_to_sm sf charts tmpl_sf tmpl_chart beh = CNotImpl.
 Proof. intro H. unfold ssc_to_sm. rewrite H. reflexivity. Qed.
 
-Lemma convert_charts_outcomes inv beh allowed tmpl : forall charts r,
-  convert_charts inv beh allowed tmpl charts = r ->
+Lemma convert_charts_outcomes post inv beh allowed tmpl : forall charts r,
+  convert_charts post inv beh allowed tmpl charts = r ->
   match r with
   | COk cs => length cs = length charts /\
-              forall i c, nth_error charts i = Some c -> exists c', nth_error cs i = Some c' /\ copy_props inv beh allowed c tmpl = COk c'
+              forall i c, nth_error charts i = Some c -> exists c', nth_error cs i = Some (post c') /\ copy_props inv beh allowed c tmpl = COk c'
   | CInvalid key => exists i c, nth_error charts i = Some c /\ copy_props inv beh allowed c tmpl = CInvalid key /\
                     forall j cj, (j < i)%nat -> nth_error charts j = Some cj -> exists c', copy_props inv beh allowed cj tmpl = COk c'
   | CNotImpl => False
@@ -151,7 +188,7 @@ Proof.
   induction charts as [|c r IH]; intros res H.
   - simpl in H. subst. split; [reflexivity|intros i c H; destruct i; discriminate].
   - cbn [convert_charts] in H. destruct (copy_props inv beh allowed c tmpl) as [c'| |key| |] eqn:Ec.
-    + destruct (convert_charts inv beh allowed tmpl r) as [cs| |key| |] eqn:Er; subst res.
+    + destruct (convert_charts post inv beh allowed tmpl r) as [cs| |key| |] eqn:Er; subst res.
       * destruct (IH _ eq_refl) as [L N]. split; [simpl; congruence|].
         intros i x Hi. destruct i as [|i]; simpl in *; [inversion Hi; subst; eauto|apply N; exact Hi].
       * exact (IH _ eq_refl).
@@ -183,11 +220,11 @@ Theorem ssc_to_sm_policy sf charts tmpl_sf tmpl_chart beh : NoDupKeys sf -> ssc_
 Proof.
   intros Hnd Hw base. unfold ssc_to_sm, convert_core. rewrite Hw. fold base.
   destruct (copy_props Tables.invalid_sm_simfile beh None sf base) as [out| |key| |] eqn:Eo.
-  - destruct (convert_charts Tables.invalid_sm_chart beh (Some Tables.sm_chart_properties)
+  - destruct (convert_charts (fun c => c) Tables.invalid_sm_chart beh (Some Tables.sm_chart_properties)
                (chart_tmpl_of Tables.blank_sm_chart tmpl_chart) charts) as [cs| |key| |] eqn:Ec; cbn [lift_charts].
     + intro k. apply (copy_props_get _ _ None sf base out Hnd Eo k).
-    + apply (convert_charts_outcomes _ _ _ _ _ _ Ec).
-    + right. destruct (convert_charts_outcomes _ _ _ _ _ _ Ec) as (i & c & Hi & Hk & _).
+    + apply (convert_charts_outcomes _ _ _ _ _ _ _ Ec).
+    + right. destruct (convert_charts_outcomes _ _ _ _ _ _ _ Ec) as (i & c & Hi & Hk & _).
       destruct (copy_props_invalid _ _ _ _ _ _ Hk) as (pre & v & post & E & D & _).
       exists c, v. split; [eapply nth_error_In; eauto|split; [rewrite E; apply in_or_app; right; left; reflexivity|exact D]].
     + exact I.
